@@ -312,7 +312,24 @@ async fn run_history(c: &Value) -> Value {
     }),
     _ => None,
   };
-  let modulator: Option<Arc<dyn Modulator>> = scripted.clone().map(|m| Arc::new(m) as Arc<dyn Modulator>);
+  // "via": "s2m" puts the real S2M/M2S wire path (S2mClient, unix sockets, S2M/M2S dispatchers)
+  // between the server and the scripted modulator
+  let via_link = cfgj.get("mod").and_then(|m| m.get("via")).and_then(|v| v.as_str()) == Some("s2m");
+  let (route_tx, _route_rx0) = broadcast::channel::<OutboundPrivatePayload>(1024);
+  let mut _chain: Option<crate::link_drv::Chain> = None;
+  let modulator: Option<Arc<dyn Modulator>> = if via_link && scripted.is_some() {
+    let link = cfgj["mod"].get("link").cloned().unwrap_or(json!({}));
+    match crate::link_drv::build_chain(&link, scripted.clone().unwrap(), route_tx.clone()).await {
+      Ok(ch) => {
+        let m = ch.modulator.clone();
+        _chain = Some(ch);
+        Some(m)
+      },
+      Err(e) => return json!({"setup_error": e.to_string()}),
+    }
+  } else {
+    scripted.clone().map(|m| Arc::new(m) as Arc<dyn Modulator>)
+  };
 
   let local_domain = StringAtom::from(c2s_cfg.listener.domain.as_str());
   let c2s_router = c2s::Router::new(local_domain.clone());
@@ -333,7 +350,8 @@ async fn run_history(c: &Value) -> Value {
   let mng: ConnManager<C2sService> = ConnManager::new(conn_cfg);
   // M2S private payload routing task (the real one), fed directly through the broadcast channel
   let direct_pool = Pool::new(64, 1 << 16);
-  let (_route_handle, route_token) = c2s::route_m2s_private_payload(m2s_tx.subscribe(), c2s_router.clone());
+  let (_route_handle, route_token) =
+    c2s::route_m2s_private_payload(if via_link { route_tx.subscribe() } else { m2s_tx.subscribe() }, c2s_router.clone());
 
   let mut clients: BTreeMap<u64, Client> = BTreeMap::new();
   let mut tasks: HashMap<u64, tokio::task::JoinHandle<()>> = HashMap::new();
